@@ -42,7 +42,8 @@ for p in sorted(root.glob("*.py")):
     m = p.stem
     def sig(q, fn):
         ps = [a.arg for a in fn.args.posonlyargs + fn.args.args + fn.args.kwonlyargs]
-        sigs.append(f"sig:{q}=" + ",".join(ps))
+        loc = sorted({x.id for x in ast.walk(fn) if isinstance(x, ast.Name) and isinstance(x.ctx, ast.Store)} - set(ps))
+        sigs.append(f"sig:{q}=" + ",".join(ps) + "|" + ",".join(loc))
     for st in tree.body:
         if isinstance(st, ast.FunctionDef):
             sig(f"{m}.{st.name}", st)
